@@ -8,7 +8,7 @@ fn uncut(steps: &[Step], _: &[Obs]) -> Vec<Step> {
 pub fn run(o: &Opts) {
     let mut sink = Sink::new(&o.out, o.shards, "Judge.C02", o.only.clone());
     let mut idx = 0u64;
-    let n = if o.thorough { 60_000 } else { 900 } * o.scale;
+    let n = if o.thorough { 30_000 } else { 900 } * o.scale;
     for _ in 0..n {
         if sink.wants(idx) {
             let mut r = Rng::for_case(o.seed, "C02", idx);
